@@ -222,3 +222,134 @@ Example c03_example_uneven :
   = [[0;4;8;2;6;10;1;5;9;3;7;11];[0;4;8;2;6;10;1;5;9;3;7;11]] /\
   sw_step_wf_b [3;2;2] [2;1] 2 ([0;2;1],[0]) ([2;1;0],[0]) = false.
 Proof. vm_compute. repeat split; reflexivity. Qed.
+
+(** * Frame of the swapper's transposes: which cells of source / dest / buf are written
+    (GatherValid.v memory level, SwapperFrame.v, FrameMem.v).  Whole-memory model as in Props/C01.v:
+    [sw_m_plain] = one step of a route without a spare buffer, returns (source', dest'); [sw_m_intact] = with one,
+    returns (dest', buf') - the source array is not an output.  A step is a cross-handler _transpose (same /
+    scatter / gather) or the handler's own transpose on its topology axes.
+    [sw_m_ok E n1 n2] = sw_any_wf_b and, on every world rank, the extent of the step (destination block size;
+    for a gather also p*B, for a handler-internal swap also p * padded block size) <= E w.
+    The well-formedness predicates do not relate extents and process counts (empty blocks are admitted). *)
+From PGV Require Import FrameMem SwapperFrame.
+
+(** gather, function level, any address *)
+Theorem c03_gather_frame_plain :
+  forall (V : Type) (d : nat) (N pi pi' ipi' : nat -> nat) (is_ : nat) (rank : Type) (setX : rank -> nat -> rank)
+    (PSa PDa : nat -> nat) (coS coD : rank -> nat -> nat) (msrc mdst : gmem V rank) (q : rank) (A : nat),
+  size (mk d (shD N pi' rank PDa coD q)) <= A ->
+  fst (mgather_plain V d N pi pi' ipi' is_ rank setX PSa PDa coS coD msrc mdst) q A = msrc q A /\
+  snd (mgather_plain V d N pi pi' ipi' is_ rank setX PSa PDa coS coD msrc mdst)
+  = fst (mgather_plain V d N pi pi' ipi' is_ rank setX PSa PDa coS coD msrc mdst).
+Proof. intros. split; [apply mgather_plain_src_frame; assumption|apply mgather_plain_dst_is_src]. Qed.
+Print Assumptions c03_gather_frame_plain.
+Theorem c03_gather_frame_intact :
+  forall (V : Type) (d : nat) (N pi pi' ipi' : nat -> nat) (is_ : nat) (rank : Type) (setX : rank -> nat -> rank)
+    (PSa PDa : nat -> nat) (coS coD : rank -> nat -> nat) (msrc mdst mbuf : gmem V rank) (q : rank) (A : nat),
+  (size (mk d (shD N pi' rank PDa coD q)) <= A ->
+   fst (mgather_intact V d N pi pi' ipi' is_ rank setX PSa PDa coS coD msrc mdst mbuf) q A = mdst q A) /\
+  (PSa is_ * B d N pi is_ rank PSa coS q <= A ->
+   snd (mgather_intact V d N pi pi' ipi' is_ rank setX PSa PDa coS coD msrc mdst mbuf) q A = mbuf q A) /\
+  (A < PSa is_ * B d N pi is_ rank PSa coS q ->
+   snd (mgather_intact V d N pi pi' ipi' is_ rank setX PSa PDa coS coD msrc mdst mbuf) q A
+   = msrc (setX q (A / B d N pi is_ rank PSa coS q)) (A mod B d N pi is_ rank PSa coS q)).
+Proof.
+  intros. split; [|split]; intros.
+  - apply mgather_intact_dst_frame; assumption.
+  - apply mgather_intact_buf_frame; assumption.
+  - apply mgather_intact_buf_scratch; assumption.
+Qed.
+Print Assumptions c03_gather_frame_intact.
+
+(** one step on lists.  Without a spare buffer: source untouched beyond E; dest untouched beyond E, or - after a
+    gather, which ends with dest[:] = source[:] - equal to the source array there.  With one: dest and buf
+    untouched beyond E.  (Scatter and same steps write the destination block only: E = its size.) *)
+Theorem c03_step_frame :
+  forall (V : Type) (dflt : V) (Nl nprocsT : list nat) (d' : nat) (E : nat -> nat) (n1 n2 : sw_node) (from to : mems V),
+  sw_m_ok Nl nprocsT d' E n1 n2 = true -> sw_Wm V nprocsT E from -> sw_Wm V nprocsT E to ->
+  fr V dflt E from (fst (sw_m_plain V dflt Nl nprocsT d' n1 n2 from to)) /\
+  (fr V dflt E to (snd (sw_m_plain V dflt Nl nprocsT d' n1 n2 from to)) \/
+   fr V dflt E from (snd (sw_m_plain V dflt Nl nprocsT d' n1 n2 from to))).
+Proof. exact sw_m_plain_frame. Qed.
+Print Assumptions c03_step_frame.
+Theorem c03_step_frame_intact :
+  forall (V : Type) (dflt : V) (Nl nprocsT : list nat) (d' : nat) (E : nat -> nat) (n1 n2 : sw_node) (from to scratch : mems V),
+  sw_m_ok Nl nprocsT d' E n1 n2 = true -> sw_Wm V nprocsT E from -> sw_Wm V nprocsT E to -> sw_Wm V nprocsT E scratch ->
+  fr V dflt E to (fst (sw_m_intact V dflt Nl nprocsT d' n1 n2 from to scratch)) /\
+  fr V dflt E scratch (snd (sw_m_intact V dflt Nl nprocsT d' n1 n2 from to scratch)).
+Proof. exact sw_m_intact_frame. Qed.
+Print Assumptions c03_step_frame_intact.
+(** the block prefix of dest is exactly the output of the prefix-level model sw_run_any *)
+Theorem c03_step_prefix :
+  forall (V : Type) (dflt : V) (Nl nprocsT : list nat) (d' : nat) (E : nat -> nat) (n1 n2 : sw_node) (from to : mems V) w j,
+  sw_m_ok Nl nprocsT d' E n1 n2 = true -> sw_Wm V nprocsT E from -> sw_Wm V nprocsT E to -> w < sw_nranks nprocsT ->
+  inb (sw_shape Nl nprocsT d' (snd n2) w) j ->
+  cell V dflt (snd (sw_m_plain V dflt Nl nprocsT d' n1 n2 from to)) w (ravel (sw_shape Nl nprocsT d' (snd n2) w) j)
+  = nth (ravel (sw_shape Nl nprocsT d' (snd n2) w) j) (nth w (sw_run_any V dflt Nl nprocsT d' n1 n2 from) []) dflt.
+Proof. exact sw_m_plain_prefix. Qed.
+Print Assumptions c03_step_prefix.
+Theorem c03_step_prefix_intact :
+  forall (V : Type) (dflt : V) (Nl nprocsT : list nat) (d' : nat) (E : nat -> nat) (n1 n2 : sw_node) (from to scratch : mems V) w j,
+  sw_m_ok Nl nprocsT d' E n1 n2 = true -> sw_Wm V nprocsT E to -> w < sw_nranks nprocsT ->
+  inb (sw_shape Nl nprocsT d' (snd n2) w) j ->
+  cell V dflt (fst (sw_m_intact V dflt Nl nprocsT d' n1 n2 from to scratch)) w (ravel (sw_shape Nl nprocsT d' (snd n2) w) j)
+  = nth (ravel (sw_shape Nl nprocsT d' (snd n2) w) j) (nth w (sw_run_any V dflt Nl nprocsT d' n1 n2 from) []) dflt.
+Proof. exact sw_m_intact_prefix. Qed.
+Print Assumptions c03_step_prefix_intact.
+
+(** routes ([among V dflt E a l]: beyond E the array a coincides with one of the arrays of l) *)
+Theorem c03_route_frame :
+  forall (V : Type) (dflt : V) (Nl nprocsT : list nat) (d' : nat) (E : nat -> nat) (cur : sw_node) (steps : list sw_node) (src dst : mems V),
+  sw_m_route_ok Nl nprocsT d' E cur steps = true -> sw_Wm V nprocsT E src -> sw_Wm V nprocsT E dst ->
+  among V dflt E (fst (sw_m_redirect V dflt Nl nprocsT d' cur steps src dst)) [src; dst] /\
+  among V dflt E (snd (sw_m_redirect V dflt Nl nprocsT d' cur steps src dst)) [src; dst].
+Proof. exact sw_m_redirect_frame. Qed.
+Print Assumptions c03_route_frame.
+Theorem c03_route_frame_intact :
+  forall (V : Type) (dflt : V) (Nl nprocsT : list nat) (d' : nat) (E : nat -> nat) (cur : sw_node) (steps : list sw_node) (src dst buf : mems V),
+  sw_m_route_ok Nl nprocsT d' E cur steps = true -> sw_Wm V nprocsT E src -> sw_Wm V nprocsT E dst -> sw_Wm V nprocsT E buf ->
+  among V dflt E (fst (sw_m_redirect_intact V dflt Nl nprocsT d' cur steps src dst buf)) [dst; buf] /\
+  among V dflt E (snd (sw_m_redirect_intact V dflt Nl nprocsT d' cur steps src dst buf)) [dst; buf].
+Proof. exact sw_m_redirect_intact_frame. Qed.
+Print Assumptions c03_route_frame_intact.
+Theorem c03_mem_route_correct :
+  forall (V : Type) (dflt : V) (Nl nprocsT : list nat) (d' : nat) (E : nat -> nat) (G : list nat -> V) (cur : sw_node)
+    (steps : list sw_node) (src dst : mems V),
+  sw_m_route_ok Nl nprocsT d' E cur steps = true -> sw_Wm V nprocsT E src -> sw_Wm V nprocsT E dst ->
+  HoldsS V dflt Nl nprocsT d' G (snd cur) src ->
+  HoldsS V dflt Nl nprocsT d' G (snd (last steps cur)) (snd (sw_m_redirect V dflt Nl nprocsT d' cur steps src dst)).
+Proof. exact sw_m_redirect_correct. Qed.
+Print Assumptions c03_mem_route_correct.
+Theorem c03_mem_route_correct_intact :
+  forall (V : Type) (dflt : V) (Nl nprocsT : list nat) (d' : nat) (E : nat -> nat) (G : list nat -> V) (cur : sw_node)
+    (steps : list sw_node) (src dst buf : mems V),
+  steps <> [] -> sw_m_route_ok Nl nprocsT d' E cur steps = true ->
+  sw_Wm V nprocsT E src -> sw_Wm V nprocsT E dst -> sw_Wm V nprocsT E buf ->
+  HoldsS V dflt Nl nprocsT d' G (snd cur) src ->
+  HoldsS V dflt Nl nprocsT d' G (snd (last steps cur)) (fst (sw_m_redirect_intact V dflt Nl nprocsT d' cur steps src dst buf)).
+Proof. exact sw_m_redirect_intact_correct. Qed.
+Print Assumptions c03_mem_route_correct_intact.
+
+(** LayoutSwapper.transpose with a spare buffer: the source array afterwards is the source array given (all cells) *)
+Theorem c03_source_intact :
+  forall (V : Type) (dflt : V) (Nl nprocsT : list nat) (d' : nat) (cur : sw_node) (steps : list sw_node) (src dst buf : mems V),
+  fst (fst (sw_m_transpose V dflt Nl nprocsT d' cur steps true src dst buf)) = src.
+Proof. intros. apply transpose_m_src_same. Qed.
+Print Assumptions c03_source_intact.
+
+(** non-vacuity: the gather of c03_example_gather on arrays of 6 cells filled with 7 / 8 / 9 beyond the block.
+    Without a buffer dest becomes a copy of the whole source array (its tail holds the 7s); with one the
+    source is intact, dest keeps its 8s and buf holds the gathered padded blocks. *)
+Example c03_example_frame :
+  sw_m_ok [2;2;2] [2;2] 2 (fun _ => 4) (0, ([0;2;1],[0;1])) (1, ([0;2;1],[0])) = true /\
+  sw_m_transpose nat 99 [2;2;2] [2;2] 2 (0, ([0;2;1],[0;1])) [(1, ([0;2;1],[0]))] false
+    [[0;2;7;7;7;7];[1;3;7;7;7;7];[4;6;7;7;7;7];[5;7;7;7;7;7]] [[8;8;8;8;8;8];[8;8;8;8;8;8];[8;8;8;8;8;8];[8;8;8;8;8;8]]
+    [[9;9;9;9;9;9];[9;9;9;9;9;9];[9;9;9;9;9;9];[9;9;9;9;9;9]]
+  = ([[0;2;1;3;7;7];[0;2;1;3;7;7];[4;6;5;7;7;7];[4;6;5;7;7;7]], [[0;2;1;3;7;7];[0;2;1;3;7;7];[4;6;5;7;7;7];[4;6;5;7;7;7]],
+     [[9;9;9;9;9;9];[9;9;9;9;9;9];[9;9;9;9;9;9];[9;9;9;9;9;9]]) /\
+  sw_m_transpose nat 99 [2;2;2] [2;2] 2 (0, ([0;2;1],[0;1])) [(1, ([0;2;1],[0]))] true
+    [[0;2;7;7;7;7];[1;3;7;7;7;7];[4;6;7;7;7;7];[5;7;7;7;7;7]] [[8;8;8;8;8;8];[8;8;8;8;8;8];[8;8;8;8;8;8];[8;8;8;8;8;8]]
+    [[9;9;9;9;9;9];[9;9;9;9;9;9];[9;9;9;9;9;9];[9;9;9;9;9;9]]
+  = ([[0;2;7;7;7;7];[1;3;7;7;7;7];[4;6;7;7;7;7];[5;7;7;7;7;7]], [[0;2;1;3;8;8];[0;2;1;3;8;8];[4;6;5;7;8;8];[4;6;5;7;8;8]],
+     [[0;2;1;3;9;9];[0;2;1;3;9;9];[4;6;5;7;9;9];[4;6;5;7;9;9]]).
+Proof. vm_compute. repeat split; reflexivity. Qed.
